@@ -11,6 +11,7 @@ for the float32 conditioning bound and for the KF-C05-a mechanism predicate).
 import numpy as np
 
 from tflv import core
+from tflv import modes
 from tflv import findings
 
 PROPERTY = "C15"
@@ -62,14 +63,14 @@ def gen_cases(ctx):
              "out_form": str(rng.choice(["3d", "2d"])), "batch_params": bool(rng.rand() < .5),
              "imin": float(rng.choice([0.0, -5.0, 100.0])), "irange": float(rng.choice([1.0, 10.0, 0.01])),
              "omin": float(rng.choice([0.0, -2.0, 10.0])), "orange": float(rng.choice([1.0, 5.0, 0.0])),
-             "wide": bool(rng.rand() < .5), "seed": int(rng.randint(2**31 - 1))}
+             "wide": bool(rng.rand() < .5), "seed": int(rng.randint(2**31 - 1)), "exec": modes.pick(rng, (0.5, 0.2, 0.3))}
     else:
       sf = int(rng.choice([1, 1, 2]))
       yield {"kind": str(rng.choice(["cdf_fn", "cdf_layer"])), "units": sf * int(rng.choice([1, 2])), "input_dim": sf * int(rng.choice([1, 2, 3])),
              "nkp": int(rng.choice([1, 2, 5])), "activation": str(rng.choice(["relu6", "sigmoid"])),
              "reduction": str(rng.choice(["mean", "geometric_mean", "none"])), "sparsity": sf,
              "scaling": str(rng.choice(["none", "positive", "exp", "fixed", "learned_shared", "learned_per_input"])),
-             "mag": float(rng.choice([1.0, 30.0, 1e2, 1e4])), "seed": int(rng.randint(2**31 - 1))}
+             "mag": float(rng.choice([1.0, 30.0, 1e2, 1e4])), "seed": int(rng.randint(2**31 - 1)), "exec": modes.pick(rng, (0.5, 0.2, 0.3))}
 
 
 def _run_pwl(ctx, case, st):
@@ -119,10 +120,20 @@ def _run_pwl(ctx, case, st):
   ctx.cls("pwl:mono=" + mono, "pwl:clamp=%d%d" % (cmin, cmax), "pwl:cyclic=%s" % cyc, "pwl:missing=" + miss,
           "pwl:in_form=" + in_form, "pwl:out_form=" + out_form, "pwl:batch_params=%s" % case["batch_params"],
           "pwl:mag=%g" % mag, "pwl:units=%d" % units, "pwl:nk=%d" % nk)
+  ex = case.get("exec", "eager")
+  ctx.cls("exec:" + ex)
+  # parameters shared across the batch (leading dimension 1) keep it static under graph_dyn
+  dyn = [True, pb == B, pb == B]
+
+  def pwl(derived, xx, ki, ko):
+    if ki is None:
+      return modes.call(tf, ex, lambda a, c: cpc.pwl_calibration_fn(a, None, c, return_derived_parameters=derived, **kw),
+                        tf.constant(xx), tf.constant(ko), dyn=[dyn[0], dyn[2]])
+    return modes.call(tf, ex, lambda a, b_, c: cpc.pwl_calibration_fn(a, b_, c, return_derived_parameters=derived, **kw),
+                      tf.constant(xx), tf.constant(ki), tf.constant(ko), dyn=dyn)
   try:
-    y, deltas, heights = cpc.pwl_calibration_fn(
-        tf.constant(x), None if kin is None else tf.constant(kin), tf.constant(kout), return_derived_parameters=True, **kw)
-    y2 = cpc.pwl_calibration_fn(tf.constant(x), None if kin is None else tf.constant(kin), tf.constant(kout), **kw)
+    y, deltas, heights = pwl(True, x, kin, kout)
+    y2 = pwl(False, x, kin, kout)
   except Exception as e:  # documented form rejected / crashed
     ctx.check("pwl_calibration_fn/call-form-accepted", False,
               "documented call form rejected: %s: %s" % (type(e).__name__, str(e).strip().splitlines()[-1][:200]),
@@ -174,8 +185,8 @@ def _run_pwl(ctx, case, st):
           ctx.check("pwl_calibration_fn/clamp-at-ends", abs(yv - omax) <= t, "clamp_max: f(%.9g)=%.9g, expected %.9g" % (xv, yv, omax), info=info)
   if miv is not None:
     xm = np.full((2, cols), np.float32(miv), dtype=np.float32)
-    pk = None if kin is None else tf.constant(kin[:1] if kin.shape[0] > 1 else kin)
-    ym = cpc.pwl_calibration_fn(tf.constant(xm), pk, tf.constant(kout[:1] if kout.shape[0] > 1 else kout), **kw).numpy()
+    dyn = [True, False, False]
+    ym = pwl(False, xm, None if kin is None else (kin[:1] if kin.shape[0] > 1 else kin), kout[:1] if kout.shape[0] > 1 else kout).numpy()
     if mov is not None:
       okm = bool(np.all(np.abs(ym - mov) <= tol0))
     else:
@@ -214,6 +225,8 @@ def _run_cdf(ctx, case, st):
   act, red, mag = case["activation"], case["reduction"], case["mag"]
   B = 10
   x = (rng.normal(size=(B, D)) * mag).astype(np.float32)
+  ex = case.get("exec", "eager")
+  ctx.cls("exec:" + ex)
   ctx.cls("cdf:" + case["kind"], "cdf:act=" + act, "cdf:red=" + red, "cdf:sparsity=%d" % sf, "cdf:scaling=" + case["scaling"], "cdf:mag=%g" % mag)
   if case["kind"] == "cdf_fn":
     loc = (rng.normal(size=(B, D, nkp, units // sf)) * mag).astype(np.float32)
@@ -232,8 +245,10 @@ def _run_cdf(ctx, case, st):
       reps = xx.shape[0] // B
       L = np.tile(loc, (reps, 1, 1, 1))
       S = None if scal is None else np.tile(scal, (reps, 1, 1, 1))
-      return ccdf.cdf_fn(tf.constant(xx), tf.constant(L), None if S is None else tf.constant(S), units=units, activation=act,
-                         reduction=red, sparsity_factor=sf, scaling_exp_transform_multiplier=mult).numpy().astype(np.float64)
+      kw_ = dict(units=units, activation=act, reduction=red, sparsity_factor=sf, scaling_exp_transform_multiplier=mult)
+      if S is None:
+        return modes.call(tf, ex, lambda a, b_: ccdf.cdf_fn(a, b_, None, **kw_), tf.constant(xx), tf.constant(L)).numpy().astype(np.float64)
+      return modes.call(tf, ex, lambda a, b_, c: ccdf.cdf_fn(a, b_, c, **kw_), tf.constant(xx), tf.constant(L), tf.constant(S)).numpy().astype(np.float64)
     eps = 1e-8
   else:
     st_ = case["scaling"] if case["scaling"] in ("fixed", "learned_shared", "learned_per_input") else "fixed"
@@ -248,7 +263,7 @@ def _run_cdf(ctx, case, st):
       layer.input_scaling.assign(layer.input_scaling.constraint(layer.input_scaling))   # NonNeg, as training would
 
     def f(xx):
-      return layer(tf.constant(np.asarray(xx, dtype=np.float32))).numpy().astype(np.float64)
+      return modes.call(tf, ex, layer, tf.constant(np.asarray(xx, dtype=np.float32))).numpy().astype(np.float64)
     eps = 1e-3
   y = f(x)
   lo, hi = 0.0, 1.0
